@@ -369,12 +369,12 @@ func verifyReaders(lv *live, rp *reporter) (int, error) {
 					reqFrom := maxIdx
 					if h == 0 && minIdx != maxIdx {
 						// Several markers 0 on disk.  While the chain is at its initial
-						// height (no later end-height marker on disk) catchupReplay searches
+						// height (no marker > 0 was ever written) catchupReplay searches
 						// exactly marker 0 and must get every record of the unfinished
 						// height, i.e. everything after the FIRST marker 0.
-						later := false
-						for _, r := range m.J[minIdx+1:] {
-							if r.End && r.H > 0 && m.onDisk(r) {
+						later := false // has the chain ever left the initial height?
+						for _, r := range m.J {
+							if r.End && r.H > 0 {
 								later = true
 								break
 							}
